@@ -36,6 +36,9 @@ pub enum Step {
     Restart,
     /// Overwrite the stored file of `key` with a corrupted variant, then crash + restart.
     CorruptAndRestart { key: usize, how: u32 },
+    /// The driver stalls: from now until the next Settle / crash it handles no local command, so completion
+    /// notifications pile up in its (possibly very small, see `Plan::chan`) command channel.
+    Stall,
 }
 
 #[derive(Serialize, Deserialize, Clone, Debug)]
@@ -50,6 +53,9 @@ pub struct Plan {
     pub probe_prefixes: u32,
     /// pre-populate the store with this many filler records (cleanup threshold runs)
     pub filler: usize,
+    /// swarm knob: capacity of the driver's local-command channel (0 = the shipped 10 000)
+    #[serde(default)]
+    pub chan: usize,
     pub steps: Vec<Step>,
 }
 
@@ -74,10 +80,11 @@ fn gen_steps(rng: &mut Rng, ctx: &GenCtx, n_keys: usize, n_steps: usize, plan_ki
     let w_crash = if plan_kind == "C02" { rng.range(1, 4) } else { 0 };
     let w_restart = if plan_kind == "C02" || plan_kind == "C10" { rng.range(0, 2) } else { 0 };
     let w_corrupt = if plan_kind == "C02" { rng.range(0, 3) } else { 0 };
+    let w_stall = if plan_kind == "C01" && rng.chance(1, 2) { rng.range(1, 4) } else { 0 };
     let sched = rng.below(4); // 0 fifo, 1 random, 2 reverse, 3 starve-one-key (random, but never key 0's tasks first)
     let weights = [
         w_put, w_remove, w_get, w_has, w_list, w_run, w_settle, w_diskerr, w_range, w_cleanup,
-        w_pay, w_metrics, w_crash, w_restart, w_corrupt,
+        w_pay, w_metrics, w_crash, w_restart, w_corrupt, w_stall,
     ];
     // half of the capacity runs acknowledge every write before the next operation (no bursts)
     let no_bursts = plan_kind == "C10" && rng.chance(1, 2);
@@ -127,10 +134,11 @@ fn gen_steps(rng: &mut Rng, ctx: &GenCtx, n_keys: usize, n_steps: usize, plan_ki
                 },
             },
             13 => Step::Restart,
-            _ => Step::CorruptAndRestart {
+            14 => Step::CorruptAndRestart {
                 key,
                 how: rng.below(1 << 16) as u32,
             },
+            _ => Step::Stall,
         };
         let was_put = matches!(s, Step::Put { .. });
         steps.push(s);
@@ -234,6 +242,7 @@ impl Sim for StoreSim {
             cache,
             probe_prefixes,
             filler,
+            chan: if kind == "C01" && rng.chance(1, 3) { rng.urange(1, 4) } else { 0 },
             steps,
         }
     }
